@@ -190,12 +190,13 @@ func (w *Witness) Update(ctx context.Context, logID string, nextRaw []byte, pf [
 		// If there was nothing stored already then treat this new
 		// STH as trust-on-first-use (TOFU).
 		if status.Code(err) == codes.NotFound {
-			if err := w.setSTH(tx, logID, nextRaw); err != nil {
-				return nil, fmt.Errorf("couldn't set TOFU STH: %v", err)
-			}
+			// Sign first: an STH we cannot cosign must not be stored.
 			signed, err := w.signSTH(next)
 			if err != nil {
 				return nil, fmt.Errorf("couldn't sign STH: %v", err)
+			}
+			if err := w.setSTH(tx, logID, nextRaw); err != nil {
+				return nil, fmt.Errorf("couldn't set TOFU STH: %v", err)
 			}
 			return signed, nil
 		}
@@ -224,13 +225,13 @@ func (w *Witness) Update(ctx context.Context, logID string, nextRaw []byte, pf [
 		return prevRaw, status.Errorf(codes.FailedPrecondition, "failed to verify consistency proof: %v", err)
 	}
 	// If the consistency proof is good we store the raw STH and return the
-	// signed one.
-	if err := w.setSTH(tx, logID, nextRaw); err != nil {
-		return nil, fmt.Errorf("failed to store new STH: %v", err)
-	}
+	// signed one. Sign first: an STH we cannot cosign must not be stored.
 	signed, err := w.signSTH(next)
 	if err != nil {
 		return nil, fmt.Errorf("failed to sign new STH: %v", err)
+	}
+	if err := w.setSTH(tx, logID, nextRaw); err != nil {
+		return nil, fmt.Errorf("failed to store new STH: %v", err)
 	}
 	return signed, nil
 }
